@@ -84,7 +84,7 @@ pub fn intvec_case<T: Elem>(cx: &mut Ctx, vals: &[T], shape: &str, ctors: &[usiz
                 }
             }
         }
-        let pick = coq == 1 || (coq > 1 && cx.shards.len() < cx.budget && cx.n_intvec_coq < cx.cap_intvec_coq && cost <= 12_000_000 && r.chance(1, coq));
+        let pick = (coq == 1 && !(cx.corpus_mode && cost > 300_000_000)) || (coq > 1 && cx.shards.len() < cx.budget && cx.n_intvec_coq < cx.cap_intvec_coq && cost <= 12_000_000 && r.chance(1, coq));
         if cx.model_intvec && pick {
             cx.n_intvec_coq += 1;
             if n > 260 { cx.sum.dist("coq_cases_intvec_long"); }
